@@ -772,6 +772,11 @@ func (m *MutableOverlayWorld) FindReferences(id b6.FeatureID, typed ...b6.Featur
 
 	baseReferences := m.base.FindReferences(id) // Not limiting by type in base search.
 	for baseReferences.Next() {
+		if m.features.HasFeatureWithID(baseReferences.FeatureID()) {
+			// The base feature has been replaced in the overlay, and may no
+			// longer reference id: rely on the overlay's references below.
+			continue
+		}
 		references[baseReferences.FeatureID()] = true
 		for _, reference := range m.references.FindReferences(baseReferences.FeatureID(), typed...) {
 			references[reference.Source()] = true
@@ -1045,6 +1050,11 @@ func NewModifiedFeaturesWithCopies(new Feature, features []b6.Feature, byID *Fea
 	}
 	m.copied = append(m.copied, false)
 	for _, f := range features {
+		if f.FeatureID() == new.FeatureID() {
+			// A feature that references itself (eg a relation that's one of
+			// its own members) is being replaced, so shouldn't be copied.
+			continue
+		}
 		if existing := byID.FindMutableFeatureByID(f.FeatureID()); existing != nil {
 			m.features = append(m.features, existing)
 			m.tokens = append(m.tokens, TokensForFeature(f))
